@@ -1874,3 +1874,43 @@ Proof.
   exists t, it. pose proof (untagged_fits d fuel l i t Hil Hi Hu Hbe Ht) as Hfit.
   repeat split; auto. intros Hside. eapply untagged_gen_addr; eauto.
 Qed.
+
+(* ---- the hypothesis [root_name_fresh] is necessary: a block named like the device (D11b) ---- *)
+
+Definition dev_named_block : list object :=
+  [OBlock None "Dev" 0 None
+     [ORegister {| rg_cfg := None; rg_name := "X"; rg_access := RW; rg_byte_order := None; rg_bit_order := BiLSB0;
+                   rg_allow_bit_overlap := false; rg_allow_address_overlap := false; rg_address := 1;
+                   rg_size_bits := 8; rg_reset := None; rg_repeat := None; rg_fields := [] |}]].
+
+Definition dev_named_blocks : list lblock :=
+  [{| b_name := "Dev"; b_root := true;
+      b_methods := [{| m_name := "Dev"; m_kind := MBlock "Dev"; m_address := 0; m_repeat := None; m_allow := false |}] |};
+   {| b_name := "Dev"; b_root := false;
+      b_methods := [{| m_name := "X"; m_kind := MLeaf KRegister; m_address := 1; m_repeat := None; m_allow := false |}] |}].
+
+Lemma dev_named_block_lowering : lower false 5 "Dev" dev_named_block = Ok dev_named_blocks.
+Proof. vm_compute. reflexivity. Qed.
+
+(* the sub-block lookup by name finds the ROOT block first: the expansion re-enters the root for ever *)
+Lemma dev_named_block_diverges : forall fuel stack,
+  claimed_methods fuel dev_named_blocks
+    [{| m_name := "Dev"; m_kind := MBlock "Dev"; m_address := 0; m_repeat := None; m_allow := false |}] 0 stack
+  = Fail OutOfFuel.
+Proof.
+  induction fuel as [|f IH]; intros stack; [reflexivity|].
+  rewrite claimed_methods_S. cbn [map]. unfold claimed_one. cbn [m_address m_repeat m_kind].
+  change (find_block "Dev" dev_named_blocks) with
+    (Some {| b_name := "Dev"%string; b_root := true;
+             b_methods := [{| m_name := "Dev"%string; m_kind := MBlock "Dev"; m_address := 0; m_repeat := None; m_allow := false |}] |}).
+  unfold rep_count, rep_stride. rewrite zrange_1. cbn [map b_methods].
+  replace (0 + 0 + 0 * 0) with 0 by lia. replace (0 + 0) with 0 by lia.
+  rewrite IH. reflexivity.
+Qed.
+
+Theorem block_named_as_device_never_terminates : forall fuel,
+  overlap_pass fuel dev_named_blocks = Fail OutOfFuel.
+Proof.
+  intros fuel. unfold overlap_pass. cbn [root_methods find dev_named_blocks b_root b_methods].
+  rewrite dev_named_block_diverges. reflexivity.
+Qed.
